@@ -1,24 +1,38 @@
-// Large batches with a repeated key (phase 5 of C29).
+// Large batches with a repeated key (last phase of C29, with its own share of the budget).
 //
 // The BFS alphabet only holds batches of 0..2 operations. What a batch implementation does with its staged list
 // (re-ordering, de-duplication, chunking, size thresholds of a sort) only shows with MORE operations, so this phase
-// enumerates, per subject, batches of bigMin..bigMax operations in which ONE key is staged 2 or 3 times among distinct
-// filler keys:
+// enumerates, per subject, batches of 13..20 operations (thorough: up to 40 on memory subjects, 24 on disk) in which ONE
+// key is staged 2 or 3 times among distinct filler keys:
 //
-//	size n            every value of bigMin..bigMax (quick 13..20)
+//	size n            every value of the range
 //	filler key order  ascending, descending, low/high interleaved (in staging order)
 //	repeated key      rank among the fillers: the empty key (spelled nil, then ""), below all, in the middle, above all
-//	repeated ops      2 ops: Set(old) Set(new) | Set Delete | Delete Set | Set(old) Set(empty) | Set(empty) Set(new)
-//	                  3 ops: every sequence over {Set(old), Set(new), Delete} except the three constant ones
-//	positions         2 ops: EVERY pair of positions i<j of the n slots (middle rank; a 5-position menu
-//	                  {0,1,n/2,n-2,n-1} for the other ranks);  3 ops: every triple of the 5-position menu
+//	repeated ops      o/n = Set(old/new value), e = Set(empty value), d = Delete:
+//	                  on | od | do ; oe | en ; the 3 different operations o,n,d in all 6 orders + 6 sequences with one
+//	                  operation twice (ood ddo dod odo ono nno)
+//	positions         slots of the repeated operations among the n slots of the batch
+//
+// Three menus (level):
+//
+//	full  (memory subjects = memdb and EVERY wrapper over memdb, CollectingDB+Drain; thorough: the disk backends too)
+//	      on|od|do at EVERY pair of positions i<j (middle rank; the 5-position menu {0,1,n/2,n-2,n-1} for the other
+//	      ranks), oe|en at every pair of the position menu (all ranks), the twelve 3-operation sequences at every triple
+//	      of the position menu (empty-key and middle rank)                                 — 19 236 batches for 13..20
+//	menu  (thorough: wrappers over a disk backend) the same with the position menu instead of all pairs
+//	small (quick: disk backends and wrappers over them) per (n, order): the five 2-operation sequences at 3 position
+//	      pairs, six 3-operation sequences at one triple, ranks lowest/middle/highest in rotation, then on|od|do on the
+//	      empty key                                                                        — 576 batches, 24 instances
+//
+// The disk subjects run on the harness's no-fsync options (see main.go), so Write/WriteSync never reach the disk; what
+// they still pay is the creation of the database files, hence one instance per (n, order) in the small menu.
 //
 // Fillers are Set(k, value unique to the batch) and, every 4th, Delete(k) — over the same filler keys in every batch of
-// a job, so that they overwrite and delete keys left by earlier batches. The batches of one (n, order, rank) job are
-// written one after the other into the same instance (disk subjects: wiped through the API between jobs) and after
-// EVERY batch the sorted-map model is compared: Get/Has of every key of the batch, full forward and reverse iteration
-// (+ guard keys of a PrefixDB, CollectingDB: before and after Drain). Raw observations are compared across the
-// subjects of a class.  The last staged operation on a key must win.
+// a job, so that they overwrite and delete keys left by earlier batches. Consecutive batches of one job are written one
+// after the other into the same instance (a brand-new one every 128 batches) and after EVERY batch the sorted-map model
+// is compared: Get/Has of every key of the batch, full forward iteration (reverse iteration after every 8th batch and
+// the last batch of an instance), guard keys of a PrefixDB; CollectingDB: before and after Drain. Raw observations are
+// compared across the subjects of a class and level. The last staged operation on a key must win.
 package main
 
 import (
@@ -30,6 +44,7 @@ import (
 	"strings"
 	"sync"
 	"sync/atomic"
+	"syscall"
 	"time"
 )
 
@@ -47,6 +62,9 @@ type bigJob struct {
 }
 
 func (j bigJob) String() string {
+	if j.rank < 0 {
+		return fmt.Sprintf("n=%d fillers %s", j.n, orderNames[j.order])
+	}
 	return fmt.Sprintf("n=%d fillers %s, repeated key %s", j.n, orderNames[j.order], rankNames[j.rank])
 }
 
@@ -90,22 +108,12 @@ func dupSpellings(rank, nf int) (first, later []byte) {
 }
 
 // dup-op letters: o = Set(old value), n = Set(new value), e = Set(empty value), d = Delete
-var dupKinds2 = []string{"on", "od", "do", "oe", "en"}
-
-func dupKinds3() []string {
-	var out []string
-	for _, a := range "ond" {
-		for _, b := range "ond" {
-			for _, c := range "ond" {
-				if a == b && b == c {
-					continue
-				}
-				out = append(out, string([]rune{a, b, c}))
-			}
-		}
-	}
-	return out
-}
+var (
+	dupKinds2     = []string{"on", "od", "do"}                         // every position pair
+	dupKinds2More = []string{"oe", "en"}                               // position menu only
+	dupKinds3     = []string{"ond", "odn", "nod", "ndo", "don", "dno", // the three different operations in every order
+		"ood", "ddo", "dod", "odo", "ono", "nno"} // one operation twice, the last one differing from an earlier one
+)
 
 func posMenu(n int) []int {
 	set := map[int]bool{0: true, 1: true, n / 2: true, n - 2: true, n - 1: true}
@@ -133,81 +141,171 @@ func subsetsOf(menu []int, d int) [][]int {
 	return out
 }
 
-// bigBatchesOf enumerates the batches of one job; reduced = only the position menu (wrappers over a disk backend).
-func bigBatchesOf(j bigJob, reduced bool, emit func(b []bop)) {
-	ctr := 0
-	build := func(kind string, pos []int) {
-		d := len(kind)
-		nf := j.n - d
-		first, later := dupSpellings(j.rank, nf)
-		fo := fillerOrder(nf, j.order)
-		out := make([]bop, 0, j.n)
-		fi, di := 0, 0
-		for slot := 0; slot < j.n; slot++ {
-			if di < d && pos[di] == slot {
-				k := later
-				if di == 0 {
-					k = first
-				}
-				switch kind[di] {
-				case 'o':
-					out = append(out, bop{k: k, v: []byte(fmt.Sprintf("old%d", ctr))})
-				case 'n':
-					out = append(out, bop{k: k, v: []byte(fmt.Sprintf("new%d", ctr))})
-				case 'e':
-					out = append(out, bop{k: k, v: nil})
-				default:
-					out = append(out, bop{del: true, k: k})
-				}
-				di++
-				continue
-			}
-			f := fo[fi]
-			fi++
-			if (f+ctr)%4 == 3 {
-				out = append(out, bop{del: true, k: fillerKey(f)})
-			} else {
-				out = append(out, bop{k: fillerKey(f), v: []byte(fmt.Sprintf("v%d.%d", ctr, f))})
-			}
-		}
-		ctr++
-		emit(out)
-	}
+// bigSpec is one batch of a job: which repeated operations, on which key, in which slots.
+type bigSpec struct {
+	kind string
+	pos  []int
+	rank int
+}
+
+const (
+	lvlSmall = iota
+	lvlMenu
+	lvlFull
+)
+
+var lvlNames = []string{"small", "menu", "full"}
+
+// bigSpecsOf enumerates the batches of one job (levels full and menu: one job per rank).
+func bigSpecsOf(j bigJob, level int) []bigSpec {
+	var out []bigSpec
 	var all []int
 	for i := 0; i < j.n; i++ {
 		all = append(all, i)
 	}
 	menu := posMenu(j.n)
 	pairs := subsetsOf(menu, 2)
-	if j.rank == 2 && !reduced {
+	if j.rank == 2 && level == lvlFull {
 		pairs = subsetsOf(all, 2)
 	}
 	for _, p := range pairs {
 		for _, kind := range dupKinds2 {
-			build(kind, p)
+			out = append(out, bigSpec{kind, p, j.rank})
+		}
+	}
+	for _, p := range subsetsOf(menu, 2) {
+		for _, kind := range dupKinds2More {
+			out = append(out, bigSpec{kind, p, j.rank})
 		}
 	}
 	if j.rank == 0 || j.rank == 2 {
 		for _, p := range subsetsOf(menu, 3) {
-			for _, kind := range dupKinds3() {
-				build(kind, p)
+			for _, kind := range dupKinds3 {
+				out = append(out, bigSpec{kind, p, j.rank})
 			}
 		}
 	}
+	return out
+}
+
+// smallSpecsOf is the small menu of one (n, order) job (job.rank = -1): 24 batches; ci = index of the job.
+func smallSpecsOf(j bigJob, ci int) []bigSpec {
+	n := j.n
+	var out []bigSpec
+	k := ci
+	rot := func() int { k++; return 1 + k%3 } // lowest, middle, highest in rotation
+	for _, p := range [][]int{{0, n - 1}, {n/2 - 1, n / 2}, {1, n - 2}} {
+		for _, kind := range append(append([]string{}, dupKinds2...), dupKinds2More...) {
+			out = append(out, bigSpec{kind, p, rot()})
+		}
+	}
+	for i := 0; i < 6; i++ {
+		out = append(out, bigSpec{dupKinds3[(ci%2)*6+i], []int{0, n / 2, n - 1}, rot()})
+	}
+	// the empty key last: from here on boltdb shows it as "nil" and the raw observations are not cross-compared
+	for _, kind := range dupKinds2 {
+		out = append(out, bigSpec{kind, []int{0, n - 1}, 0})
+	}
+	return out
+}
+
+// build renders batch number ctr of job j.
+func (sp bigSpec) build(j bigJob, ctr int) []bop {
+	d := len(sp.kind)
+	nf := j.n - d
+	first, later := dupSpellings(sp.rank, nf)
+	fo := fillerOrder(nf, j.order)
+	out := make([]bop, 0, j.n)
+	fi, di := 0, 0
+	for slot := 0; slot < j.n; slot++ {
+		if di < d && sp.pos[di] == slot {
+			k := later
+			if di == 0 {
+				k = first
+			}
+			switch sp.kind[di] {
+			case 'o':
+				out = append(out, bop{k: k, v: []byte(fmt.Sprintf("old%d", ctr))})
+			case 'n':
+				out = append(out, bop{k: k, v: []byte(fmt.Sprintf("new%d", ctr))})
+			case 'e':
+				out = append(out, bop{k: k, v: nil})
+			default:
+				out = append(out, bop{del: true, k: k})
+			}
+			di++
+			continue
+		}
+		f := fo[fi]
+		fi++
+		if (f+ctr)%4 == 3 {
+			out = append(out, bop{del: true, k: fillerKey(f)})
+		} else {
+			out = append(out, bop{k: fillerKey(f), v: []byte(fmt.Sprintf("v%d.%d", ctr, f))})
+		}
+	}
+	return out
+}
+
+const bigChunk = 128
+
+// freshHard gives the shard a brand-new instance (disk subjects: on new files).
+func freshHard(e *env, sc *shardCtx) error {
+	if sc.in != nil {
+		sc.in.closeFn()
+		sc.in = nil
+	}
+	if e.s.disk {
+		os.RemoveAll(sc.dir)
+	}
+	in, err := e.s.open(sc.dir, e.sync)
+	if err != nil {
+		return err
+	}
+	sc.in = in
+	return nil
+}
+
+// cpuSeconds: user+system CPU time of the process so far (the machine is shared: wall time says little).
+func cpuSeconds() float64 {
+	var ru syscall.Rusage
+	syscall.Getrusage(syscall.RUSAGE_SELF, &ru)
+	return float64(ru.Utime.Sec+ru.Stime.Sec) + float64(ru.Utime.Usec+ru.Stime.Usec)/1e6
 }
 
 type bigStats struct {
-	batches, jobs, dupPairs int64
-	findings                []finding
+	batches, jobs, units, mismatches int64
+	capped                           bool
+	findings                         []finding
 }
 
-// bigBatches runs the phase for one subject.
-func bigBatches(s *subject, nMin, nMax int, reduced bool) bigStats {
+// bigBatches runs the phase for one subject. The unit of work is a chunk of bigChunk consecutive batches of one job,
+// written one after the other into a brand-new instance (overwritten and deleted versions pile up in the LSM backends
+// and would make every later full iteration slower); units are dealt round-robin to the shards.
+func bigBatches(s *subject, nMin, nMax int, level int, deadline time.Time) bigStats {
+	type unit struct {
+		ji, from, to int
+	}
 	var jobs []bigJob
+	var specs [][]bigSpec
+	var units []unit
+	add := func(j bigJob, sp []bigSpec) {
+		for from := 0; from < len(sp); from += bigChunk {
+			units = append(units, unit{len(jobs), from, min(from+bigChunk, len(sp))})
+		}
+		jobs = append(jobs, j)
+		specs = append(specs, sp)
+	}
 	for n := nMin; n <= nMax; n++ {
 		for order := 0; order < 3; order++ {
+			if level == lvlSmall {
+				j := bigJob{n, order, -1}
+				add(j, smallSpecsOf(j, len(jobs)))
+				continue
+			}
 			for rank := 0; rank < 4; rank++ {
-				jobs = append(jobs, bigJob{n, order, rank})
+				j := bigJob{n, order, rank}
+				add(j, bigSpecsOf(j, level))
 			}
 		}
 	}
@@ -228,30 +326,35 @@ func bigBatches(s *subject, nMin, nMax int, reduced bool) bigStats {
 	var batches atomic.Int64
 	var fmu sync.Mutex
 	minFinding := map[string]finding{}
+	nFindings := 0
 	var harnessErr atomic.Value
+	var capped atomic.Bool
 	r.ParFor(nShards, func(sh int) {
 		sc := shards[sh]
-		for ji := sh; ji < len(jobs); ji += nShards {
-			if r.Expired() {
+		for ui := sh; ui < len(units); ui += nShards {
+			if r.Expired() || time.Now().After(deadline) {
+				capped.Store(true)
 				return
 			}
-			job := jobs[ji]
-			if err := e.fresh(sc); err != nil {
+			if harnessErr.Load() != nil {
+				return
+			}
+			u := units[ui]
+			job := jobs[u.ji]
+			if err := freshHard(e, sc); err != nil {
 				harnessErr.Store(err.Error())
 				return
 			}
 			m := newModel()
-			bi := 0
 			bad := 0
-			bigBatchesOf(job, reduced, func(b []bop) {
-				bi++
-				if bad > 3 || harnessErr.Load() != nil {
-					return
-				}
-				o := op{kind: kBatch, b: b, end: bi % 2, sized: bi%3 != 2}
+			for bi := u.from; bi < u.to && bad < 2; bi++ {
+				b := specs[u.ji][bi].build(job, bi)
+				// (WriteSync for every 8th batch; disk subjects are opened with the no-fsync options anyway)
+				o := op{kind: kBatch, b: b, end: btoi(bi%8 == 3), sized: bi%3 != 2}
 				// the point-read menu of this batch: every key it names (both spellings of the empty key)
 				seen := map[string]bool{}
-				ev := &env{s: s}
+				// the full reverse iteration walks every dead version in the LSM memtables: every 8th batch and the last of a unit
+				ev := &env{s: s, noReverse: bi%8 != 7 && bi != u.to-1}
 				for _, x := range b {
 					sk := string(x.k)
 					if x.k == nil {
@@ -276,8 +379,8 @@ func bigBatches(s *subject, nMin, nMax int, reduced bool) bigStats {
 						mmx = ev.observe(sc.in, m, &obs)
 					}
 				}
-				if mmx == nil && job.rank != 0 {
-					ck := fmt.Sprintf("%v|%d|%v", job, bi, reduced)
+				if sp := specs[u.ji][bi]; mmx == nil && sp.rank != 0 {
+					ck := fmt.Sprintf("%v|%d|%v", job, bi, level)
 					d := sha256.Sum256([]byte(obs.String()))
 					cl := s.class + tag
 					crossMu.Lock()
@@ -297,36 +400,37 @@ func bigBatches(s *subject, nMin, nMax int, reduced bool) bigStats {
 					crossMu.Unlock()
 				}
 				if mmx == nil {
-					return
+					continue
 				}
 				bad++
-				f := finding{class: mmx.class, detail: mmx.detail, subject: s.name, order: uint64(ji)<<32 | uint64(bi),
-					path: []string{fmt.Sprintf("(batch #%d of the job %v; the instance holds what the earlier batches of the job left)", bi, job), o.String()}}
+				f := finding{class: mmx.class, detail: mmx.detail, subject: s.name, order: uint64(u.ji)<<32 | uint64(bi),
+					path: []string{fmt.Sprintf("(batch #%d of the job %v; the instance holds what batches #%d.. of the job left)", bi, job, u.from), o.String()}}
 				fmu.Lock()
+				nFindings++
 				if old, ok := minFinding[mmx.class]; !ok || f.order < old.order {
 					minFinding[mmx.class] = f
 				}
 				fmu.Unlock()
 				// resynchronise: empty instance, empty model
-				if err := e.fresh(sc); err != nil {
+				if err := freshHard(e, sc); err != nil {
 					harnessErr.Store(err.Error())
 					return
 				}
 				m = newModel()
-			})
+			}
 		}
 	})
 	if he := harnessErr.Load(); he != nil {
 		r.HarnessError("%s%s: %v", s.name, tag, he)
 	}
-	st := bigStats{batches: batches.Load(), jobs: int64(len(jobs))}
+	st := bigStats{batches: batches.Load(), jobs: int64(len(jobs)), units: int64(len(units)), mismatches: int64(nFindings), capped: capped.Load()}
 	for _, f := range minFinding {
 		st.findings = append(st.findings, f)
 	}
 	sort.Slice(st.findings, func(a, b int) bool { return st.findings[a].order < st.findings[b].order })
 	for _, f := range st.findings {
-		key := s.keyName() + ": batch of " + fmt.Sprintf("%d-%d", nMin, nMax) + " operations staging one key several times: " + f.class
-		if r.Violation(key, map[string]any{"subject": s.name, "class": f.class, "history": f.path, "mismatch": f.detail}) && !printed[key] {
+		key := s.keyName() + ": batch of 13+ operations staging one key several times: " + f.class
+		if r.Violation(key, map[string]any{"subject": s.name, "class": f.class, "history": f.path, "mismatch": f.detail, "mismatching_batches": nFindings}) && !printed[key] {
 			printed[key] = true
 			fmt.Printf("  %s\n    history: %s\n    => %s\n", key, strings.Join(f.path, " ; "), f.detail)
 		}
@@ -334,24 +438,46 @@ func bigBatches(s *subject, nMin, nMax int, reduced bool) bigStats {
 	return st
 }
 
-// runBigBatches: every subject; wrappers over a DISK backend get the reduced position menu (the wrapper's own batch
-// code is backend-independent and runs the full menu over memdb; every backend runs the full menu directly).
-func runBigBatches(subjects []*subject, th bool) (per map[string]any, total int64) {
-	per = map[string]any{}
-	nMin, nMax := 13, 20
-	if th {
-		nMax = 40
+func btoi(b bool) int {
+	if b {
+		return 1
 	}
-	for _, s := range subjects {
-		if r.Expired() {
-			break
+	return 0
+}
+
+// runBigBatches runs the phase for every subject within its own share of the budget (it is the LAST phase: it can be
+// cut short by a slow machine, it can never starve the BFS phases). Memory subjects first: they carry the full menu.
+func runBigBatches(subjects []*subject, th bool, share time.Duration) (per map[string]any, total int64, complete bool) {
+	per = map[string]any{}
+	complete = true
+	deadline := time.Now().Add(share)
+	ordered := append([]*subject{}, subjects...)
+	sort.SliceStable(ordered, func(a, b int) bool { return !ordered[a].disk && ordered[b].disk })
+	for _, s := range ordered {
+		t0, c0 := time.Now(), cpuSeconds()
+		nMin, nMax, level := 13, 20, lvlFull
+		switch {
+		case s.disk && !th:
+			level = lvlSmall
+		case s.disk && (s.prefix != nil || s.readonly || s.collecting):
+			nMax, level = 24, lvlMenu
+		case s.disk:
+			nMax = 24
+		case th:
+			nMax = 40
 		}
-		t0 := time.Now()
-		reduced := s.disk && (s.prefix != nil || s.readonly || s.collecting) && !th
-		st := bigBatches(s, nMin, nMax, reduced)
+		if r.Expired() || time.Now().After(deadline) {
+			complete = false
+			per[s.name] = map[string]any{"batches": 0, "skipped": "budget share of the phase used up"}
+			continue
+		}
+		st := bigBatches(s, nMin, nMax, level, deadline)
+		if st.capped {
+			complete = false
+		}
 		total += st.batches
-		per[s.name] = map[string]any{"batches": st.batches, "jobs": st.jobs, "sizes": fmt.Sprintf("%d..%d", nMin, nMax), "reduced_position_menu": reduced}
-		fmt.Printf("  %-40s large batches: jobs=%d batches=%d reduced=%v (%.1fs)\n", s.name, st.jobs, st.batches, reduced, time.Since(t0).Seconds())
+		per[s.name] = map[string]any{"batches": st.batches, "jobs": st.jobs, "fresh_instances": st.units, "sizes": fmt.Sprintf("%d..%d", nMin, nMax), "menu": lvlNames[level], "complete": !st.capped}
+		fmt.Printf("  %-40s large batches: menu=%s sizes=%d..%d jobs=%d instances=%d batches=%d complete=%v (%.1fs wall, %.1fs cpu)\n", s.name, lvlNames[level], nMin, nMax, st.jobs, st.units, st.batches, !st.capped, time.Since(t0).Seconds(), cpuSeconds()-c0)
 	}
 	return
 }
